@@ -608,5 +608,38 @@ def conditional_structure(args):
     return False, "every else block pairs with the if block of its own conditional"
 
 
+@driver
+def tree_and_column_names(args):
+    """AsROOTTTree(file, tree, columns): names that cannot be written as a C++ string literal are refused; a column of any other name gets a class
+    member whose name is a C++ identifier (the branch keeps the name as given)."""
+    import re
+    ob = args.get("obligation", "")
+    want = "literal" if "string_literals" in ob else "member" if "identifier" in ob else "all"
+    if want in ("literal", "all"):
+        for tree, cols in [('my"tree', ["a", "b"]), ("t", ['a"x', "b"]), ("t\\n", ["a", "b"])]:
+            q = _dataset().SelectMany("lambda e: e.Jets('A')").Select("lambda j: (j.pt(), j.eta())").AsROOTTTree("f.root", tree, cols)
+            try:
+                info, files = translate(q)
+            except Exception:
+                continue
+            bad = [l.strip() for l in files["query.cxx"].splitlines() if ("TTree (" in l or "Branch(" in l) and (tree in l or cols[0] in l)]
+            return True, "tree %r with columns %r is translated: %s" % (tree, cols, bad[:1])
+    if want in ("member", "all"):
+        for cols in (["jet.pt", "a b"], ["pt-1", "x"], ["2nd", "x"]):
+            q = _dataset().SelectMany("lambda e: e.Jets('A')").Select("lambda j: (j.pt(), j.eta())").AsROOTTTree("f.root", "t", cols)
+            try:
+                info, files = translate(q)
+            except Exception:
+                continue
+            decls = [l.strip() for l in files["query.h"].splitlines() if re.match(r"\s*(double|float|int|bool|std::vector<.*>)\s+_", l)]
+            for dline in decls:
+                name = dline.rstrip(";").split(None, 1)[1]
+                if not re.fullmatch(r"[A-Za-z_][A-Za-z0-9_]*", name):
+                    return True, "column names %r: the class member is declared as `%s`, which is not a C++ identifier" % (cols, dline)
+            if not all(('Branch("%s"' % c) in files["query.cxx"] for c in cols):
+                return True, "column names %r are not the names of the booked branches" % (cols,)
+    return False, "unrepresentable names are refused and members are identifiers"
+
+
 if __name__ == "__main__":
     main()
